@@ -10,6 +10,11 @@ Open Scope string_scope.
 Theorem C18_keys_filter : filter_ok enum_keys_filter = true.
 Proof. vm_compute. reflexivity. Qed.
 
+(* class Enum has exactly the members Model/Enum.v was written for, each with exactly that text (compared as syntax trees on every run), and
+   no others: no __getattr__ / __getattribute__ / __call__ / __setattr__ on the metaclass, no statement after the class *)
+Theorem C18_enum_class_is_the_modelled_text : enum_class_unknown = nil.
+Proof. vm_compute. reflexivity. Qed.
+
 (* an enumeration built from a mapping exposes exactly the supplied names with their values *)
 Theorem C18_new : forall m, NoDup (map fst m) -> forallb visible m = true ->
   e_keys enum_keys_filter (e_new m) = map fst m /\
